@@ -312,7 +312,8 @@ def test_componentwise(case, note):
             # (exact up to underflow into subnormals)
             if gs.shape != want.shape or not np.all(
                     np.abs(gs - want * scale)
-                    <= 1e-13 * np.max(np.abs(want * scale)) + 1e-300):
+                    <= 1e-13 * np.max(np.abs(want * scale)) + 1e-300
+                    + 1e-320 * scale):   # subnormal entries of `want`
                 raise PropertyFailure(
                     f"{name}:not-homogeneous",
                     dict(scale=scale, maxdiff=float(np.max(np.abs(
